@@ -48,7 +48,7 @@ func genC16(t *rapid.T) bson.D {
 	for i, m := 0, rapid.IntRange(0, 150).Draw(t, "tapelen"); i < m; i++ {
 		tape = append(tape, int32(rapid.SampledFrom([]int{0, 0, 1, 2, 2, 3, 3}).Draw(t, "tape")))
 	}
-	return bson.D{{Key: "actors", Value: actors}, {Key: "tape", Value: tape}, {Key: "procs", Value: int32(rapid.SampledFrom([]int{2, 4, 16}).Draw(t, "procs"))}}
+	return bson.D{{Key: "actors", Value: actors}, {Key: "tape", Value: tape}, {Key: "procs", Value: int32(rapid.SampledFrom([]int{2, 4, 16}).Draw(t, "procs"))}, {Key: "finale", Value: int32(rapid.IntRange(0, 2).Draw(t, "finale"))}}
 }
 
 type c16Env struct {
@@ -67,6 +67,7 @@ type faultyStoreMT struct {
 	mu       sync.Mutex
 	inner    lungo.Store
 	failNext bool
+	slowNext time.Duration // the next Store call takes this long (the commit holds the engine lock meanwhile)
 }
 
 func (f *faultyStoreMT) Load() (*lungo.Catalog, error) { return f.inner.Load() }
@@ -74,7 +75,12 @@ func (f *faultyStoreMT) Store(c *lungo.Catalog) error {
 	f.mu.Lock()
 	fail := f.failNext
 	f.failNext = false
+	slow := f.slowNext
+	f.slowNext = 0
 	f.mu.Unlock()
+	if slow > 0 {
+		time.Sleep(slow)
+	}
 	if fail {
 		return errors.New("injected store failure")
 	}
@@ -389,6 +395,110 @@ func runC16Once(c bson.D, x *Ctx) error {
 		if err != nil {
 			return fmt.Errorf("wedged: after all scripts finished (every transaction committed, aborted or its session ended) a probe write failed after %v: %v\n%s", time.Since(t0).Round(time.Millisecond), err, goroutineDump())
 		}
+		switch asI(getD(c, "finale")) {
+		case 1:
+			// a stream is closed by its owner while the engine shuts down,
+			// both queued behind a commit that holds the engine lock
+			st, werr := client.Database("probe").Collection("p").Watch(context.Background(), bson.A{})
+			if werr != nil {
+				return fmt.Errorf("Watch before shutdown failed: %v", werr)
+			}
+			e.store.mu.Lock()
+			e.store.slowNext = 30 * time.Millisecond
+			e.store.mu.Unlock()
+			var rg sync.WaitGroup
+			panics := make(chan string, 3)
+			guard := func(name string, f func()) {
+				rg.Add(1)
+				go func() {
+					defer rg.Done()
+					defer func() {
+						if p := recover(); p != nil {
+							panics <- fmt.Sprintf("%s panicked: %v", name, p)
+						}
+					}()
+					f()
+				}()
+			}
+			guard("InsertOne", func() {
+				cx, cancel := context.WithTimeout(context.Background(), 3*time.Second)
+				defer cancel()
+				_, _ = client.Database("probe").Collection("p").InsertOne(cx, bson.D{{Key: "_id", Value: "slow"}})
+			})
+			time.Sleep(8 * time.Millisecond)
+			guard("Engine.Close", func() { engine.Close() })
+			time.Sleep(time.Millisecond)
+			guard("Stream.Close", func() { _ = st.Close(context.Background()) })
+			rdone := make(chan struct{})
+			go func() { rg.Wait(); close(rdone) }()
+			select {
+			case <-rdone:
+			case <-time.After(tLive):
+				return fmt.Errorf("a commit, Engine.Close and Stream.Close issued together did not all return within %v\n%s", tLive, goroutineDump())
+			}
+			select {
+			case p := <-panics:
+				return fmt.Errorf("closing a stream while the engine shuts down: %s", p)
+			default:
+			}
+			atomic.StoreInt32(&e.closed, 1)
+		case 2:
+			// a Begin(lock) that already holds the writer token when the
+			// engine shuts down completely must still report the closed engine
+			parked := make(chan struct{})
+			resume := make(chan struct{})
+			var once sync.Once
+			hk := func(point string) {
+				if point == "begin.acquired" {
+					once.Do(func() {
+						close(parked)
+						<-resume
+					})
+				}
+			}
+			lungo.VerifHook.Store(&hk)
+			type bres struct {
+				txn *lungo.Transaction
+				err error
+			}
+			bch := make(chan bres, 1)
+			go func() {
+				cx, cancel := context.WithTimeout(context.Background(), 30*time.Second)
+				defer cancel()
+				txn, err := engine.Begin(cx, true)
+				bch <- bres{txn, err}
+			}()
+			select {
+			case <-parked:
+			case <-time.After(tLive):
+				lungo.VerifHook.Store(nil)
+				return fmt.Errorf("wedged: Begin(lock) on an idle engine did not acquire the writer slot within %v\n%s", tLive, goroutineDump())
+			}
+			cdone := make(chan struct{})
+			go func() { engine.Close(); close(cdone) }()
+			select {
+			case <-cdone:
+			case <-time.After(tLive):
+				close(resume)
+				lungo.VerifHook.Store(nil)
+				return fmt.Errorf("Engine.Close did not return within %v while a Begin held the writer token\n%s", tLive, goroutineDump())
+			}
+			close(resume)
+			select {
+			case b := <-bch:
+				lungo.VerifHook.Store(nil)
+				if b.err == nil {
+					engine.Abort(b.txn)
+					return fmt.Errorf("Begin(lock) returned a write transaction after Engine.Close had returned (it held the writer token when the engine shut down)")
+				}
+			case <-time.After(tLive):
+				lungo.VerifHook.Store(nil)
+				return fmt.Errorf("Begin(lock) did not return within %v after Engine.Close\n%s", tLive, goroutineDump())
+			}
+			atomic.StoreInt32(&e.closed, 1)
+		}
+	}
+	if !e.isClosed() {
 		// shutdown completes, and it releases a writer that is waiting for
 		// the slot with a context of its own (cancelable, far deadline)
 		hctx, hcancel := context.WithTimeout(context.Background(), 3*time.Second)
